@@ -14,7 +14,9 @@ Binding: the faithful exhaustive run exports one row per finished exchange; ever
 to bytes and sent to a real jsonrpc.Server with recording handlers (HandleReader, HandleReadWriter,
 HTTP handler), at once or in seeded CHUNKS (chunking io.Reader / body streamed through io.Pipe), at
 natural size and - for every request that reaches a handler, every batch and a sample of all other
-classes - LARGE (600 B .. 64 KiB: transport/framing independence); TLC-simulated batches likewise on a 3-worker pool; the answer bytes and the handler
+classes - LARGE (600 B .. 64 KiB: transport/framing independence); batches of 300 .. 140 000 entries;
+a CONCURRENT round (8 goroutines, one shared server); returned response bytes re-checked after later
+exchanges; TLC-simulated batches likewise on a 3-worker pool; the answer bytes and the handler
 invocation log are compared with what the PROPERTY promises (not with the switches). Plus seeded
 byte-level mutants judged with encoding/json + the abstraction function + the exhaustive table.
 """
@@ -101,20 +103,26 @@ def run(ctx):
                "mutations": 400000 if thorough else 60000, "seed": ctx.seed, "selftest": True}
     res = ctx.run_engine(binary, "TestJsonRpcReplay", payload, timeout=3000)
     st = res.get("stats", {})
-    if st.get("timeouts") or st.get("harness_timeouts"):
-        raise vlib.Broken("a request did not return within the per-request deadline (harness timeout; stats %s)" % st)
     if st.get("abstraction_mismatch"):
         raise vlib.Broken("harness self-check failed: abstraction(render(x)) != x for %s inputs; samples %s" % (
             st["abstraction_mismatch"], st.get("abstraction_mismatch_samples")))
     ctx.absorb(res, "jsonrpc", "TestJsonRpcReplay")
+    # a known finding that no longer reproduces is worth a line, not a failure
+    for k in ctx.known:
+        if k.get("status") == "known" and k["key"] not in [h["key"] for h in ctx.known_hits]:
+            print("NOTE: property=C11 known finding %s did not reproduce in this run" % k["key"], flush=True)
     if not ctx.violations:
+        # (a hang of the real code AFTER a recorded divergence reports the divergence; alone it is a harness timeout)
+        if st.get("timeouts") or st.get("harness_timeouts"):
+            raise vlib.Broken("a request did not return within the per-request deadline (harness timeout; stats %s)" % st)
         if st.get("selftest_missed") or not st.get("selftest_caught"):
             raise vlib.Broken("binding self-test: corrupted expectations were accepted (%s missed, %s caught)" % (
                 st.get("selftest_missed"), st.get("selftest_caught")))
         if "panic:" in res.get("_stdout", ""):
             raise vlib.Broken("engine panicked:\n" + res["_stdout"][-3000:])
         if st.get("exchanges", 0) < len(rows) or not st.get("exchanges_invoking_a_handler") \
-                or not st.get("large_chunked_exchanges_invoking_a_handler") or not st.get("exchanges_delivered_in_chunks"):
+                or not st.get("large_chunked_exchanges_invoking_a_handler") or not st.get("exchanges_delivered_in_chunks") \
+                or not st.get("concurrent_invocations_checked") or not st.get("huge_batches_conforming"):
             raise vlib.Broken("engine replayed too little: %s" % st)
     ctx.coverage["rows_exported_exhaustively"] = len(rows)
     ctx.coverage["simulated_batches"] = len(batches)
